@@ -373,7 +373,7 @@ func TestC03(t *testing.T) {
 			var bad string
 			if rapid.Bool().Draw(rt, "badfor") {
 				// a name begins with a letter or "_" (a digit of another script is still a digit)
-				bad = "for " + rapid.SampledFrom([]string{"1a", "\u0663", "\u0663a", "a-b", "a.b", "9", "a+", "\u00b2"}).Draw(rt, "badname") + " in a; do b; done"
+				bad = "for " + rapid.SampledFrom([]string{"1a", "\u0663", "\u0663a", "a-b", "a.b", "9", "a+", "\u00b2", "x$y", `x"y"`, `x\y`, "x${y}z", "x''", "x`y`", "x$((1))", `"x"`, "$x", "x=1", "x*"}).Draw(rt, "badname") + " in a; do b; done"
 			} else {
 				// special built-in utilities cannot be function names
 				bad = rapid.SampledFrom([]string{"break", "continue", "eval", "exec", "exit", "export", "readonly", "return", "set", "shift", "times", "trap", "unset"}).Draw(rt, "spbuiltin") + "() { a; }"
